@@ -1763,6 +1763,30 @@ func replayC03(c *lib.Ctx, r *run, e *env) error {
 		}
 		o := r.fetchAudio(as, in, in.N)
 		fmt.Printf("replay C03: GET %s -> %d %s tfdt=%d frames=%d seq=%d\n", in.AudioURL, o.status, o.panicS, o.ps.Tfdt, len(o.ps.Frames), o.ps.Seq)
+		if in.Mode != "number" && in.NowMS != 0 {
+			// the segment was requested because the MPD of that instant lists it: compare with that MPD again
+			rest := strings.TrimPrefix(in.AudioURL, "/livesim2/")
+			if j := strings.Index(rest, as.d.URLPath+"/"); j >= 0 {
+				r.timelineRun(as, rest[:j], in.NowMS, 4)
+			}
+		}
+	case "mpd":
+		in, err := lib.LoadReplayInput[struct {
+			Asset string `json:"asset"`
+			URL   string `json:"url"`
+		}](c.Replay)
+		if err != nil {
+			return err
+		}
+		as := e.byName[in.Asset]
+		if as == nil {
+			return fmt.Errorf("unknown asset %s (assets drawn from the seed are only present with the same seed)", in.Asset)
+		}
+		resp := as.ls.GetRaw(in.URL)
+		fmt.Printf("replay C03: GET %s -> %d %s\n", in.URL, resp.Status, resp.Panic)
+		if resp.Status != 200 {
+			r.mpdFailure(as, in.URL, fmt.Errorf("status %d", resp.Status))
+		}
 	case "synth":
 		in, err := lib.LoadReplayInput[synthIn](c.Replay)
 		if err != nil {
